@@ -17,8 +17,8 @@ claim("C12", "model-based property testing of commit/reopen/LoadVersion historie
   "Generated write/delete/commit/reopen histories over 1-4 IAVL stores and a transient store under every pruning policy shape are run on rootmulti; after every commit and reopen the version step, commit id and full content are compared with a snapshot-per-version model, and a fresh store must load exactly the versions the documented pruning rule retains (pruned/future => error).",
   "MemDB back end (durability of the DB engine is trusted); retention model = documented pruning rule; lazy loading and StoreTypeDB mounts are outside the generated configurations",
   "DESIGN.md §4 C12")
-claim("C13", "fault injection by crash-point enumeration over generated commit histories (instrumented DB, reopen-and-replay oracle, continuation against an uninterrupted reference run)", "fault_enumeration",
-  "For generated histories every durable write unit of the interrupted commit(s) is used as a crash point (complete enumeration per interrupted commit): the surviving database must reopen at the old or new version with exactly that version's hash and content in all stores, replay must reproduce the uninterrupted hash, and retained versions must stay loadable.",
+claim("C13", "fault injection by crash-point enumeration over generated commit histories, at store level (rootmulti over an instrumented DB) and at application level (a whole node with query / CheckTx traffic), with a reopen-and-replay oracle and continuation against an uninterrupted reference run", "fault_enumeration",
+  "For generated histories every durable write unit of the interrupted commit(s) is used as a crash point (complete enumeration per interrupted commit): the surviving database must reopen at the old or new version with exactly that version's hash and content in all stores, replay must reproduce the uninterrupted hash, and retained versions must stay loadable. One case in five runs a generated chain history on a whole application instead: every prefix of the Commit's write log is applied to a clone of the pre-commit database, a new application must open it at the old or new height with that height's app hash, and re-executing the interrupted block must give the uninterrupted results and hash.",
   "atomic batch writes assumed; crash = process death between durable write units; two known findings (prune of the last flushed version when keepRecent=0; partial first commit) are excluded by their exact predicates and reported as KNOWN-FINDING",
   "DESIGN.md §4 C13")
 claim("C15", "stateful model-based testing (rapid programs vs. stack-of-sorted-maps model) + concurrent histories checked for linearizability (porcupine) and under -race", "exploration",
@@ -37,13 +37,13 @@ claim("C14", "model-based property testing of key and subspace store queries on 
 
 CH = "state is read from the root multistore's working state and decoded independently of the keepers; Tendermint is mirrored by the harness (validator-set delay, tx index stub); listed known findings are excluded by construction and reported as KNOWN-FINDING"
 claim("C01", "differential testing of twin application instances over generated ABCI histories (rapid, restart and pruning differentials, extra read-only traffic on one twin) + schedule-controlled iterator programs (harness-owned goroutine schedule via a gated database, late-read oracle)", "exploration",
-  "Two independently built instances receive the same generated consensus requests (genesis with map-typed sections, votes, evidence, valid/invalid transactions, awards, burns, monotone times); one is restarted from its database at generated points, the other uses a different pruning configuration and gets extra CheckTx/Simulate/Query traffic; every consensus-relevant response and the app hash at every height must be identical.",
+  "Two independently built instances receive the same generated consensus requests (genesis with map-typed sections, votes, evidence, valid/invalid transactions, awards, burns, monotone times); one is restarted from its database at generated points, the other uses a different pruning configuration and gets extra CheckTx/Simulate/Query traffic; one history in three runs under a block gas limit; every consensus-relevant response and the app hash at every height must be identical.",
   "map-order / goroutine-timing nondeterminism is sampled per case, not enumerated; logs and gas not compared; " + CH, "DESIGN.md §4 C01")
 claim("C02", "history invariant checking with a supply ledger over generated ABCI histories (rapid)", "exploration",
   "After every ABCI call of a generated history the recorded supply must equal the sum of all balances, no balance may be negative, and the supply delta of the call must match the statement (only award mints, slash/forced-unstake burns in BeginBlock and DAO burns move it).",
   CH, "DESIGN.md §4 C02")
 claim("C03", "decision-table oracle over generated and mutated signed transactions observed through CheckTx/DeliverTx, signature validity decided by construction (rapid)", "exploration",
-  "Transactions of every message and key type (key in signature or in state), signed by the right or a foreign key, with one post-signing mutation, fee/balance edge cases and replays are submitted; accept/reject is compared with a model written from the statement, rejected ones must leave the state byte-identical, accepted ones must move exactly the fee into the collector.",
+  "Transactions of every message and key type (key in signature or in state), signed by the right or a foreign key, with one post-signing mutation, fee/balance edge cases (fees naming a second denomination included) and replays are submitted; accept/reject is compared with a model written from the statement, rejected ones must leave the state byte-identical, accepted ones must move exactly the fee into the collector.",
   "for transactions the harness builds, signature validity is known by construction (which key signed which content, what changed afterwards) and required fees are keyed by Go type; only byte-level mutants use the library's verification; same-block replays are outside the app's knowledge; " + CH, "DESIGN.md §4 C03")
 claim("C04", "history invariant checking of pool backing over generated staking histories (rapid)", "exploration",
   "After every ABCI call the staked-pool balance must equal the stake recorded for staked/unstaking validators plus direct sends to the pool; accepted stakes and matured unstakes must move exactly the recorded amounts.",
